@@ -314,7 +314,9 @@ def oracle(c, o):
                     if k not in hb:
                         v.append(("not-replicated", "after %d full rounds node %d still lacks %s held by its neighbour %d" % (c["full_rounds"], b, k, a)))
                     elif hb[k] != ca and merge_expected(hb[k], ca) != hb[k]:
-                        if a in wanted_from.get((b, k), set()) and (b, k, a) not in fetched_from and not any_drop:
+                        # (scratchpads carry no version in their type tag: a queued fetch of one is legitimately
+                        #  cleared by storing ANY version of it, so for them this stays the known class)
+                        if ca[0] in ("reg", "txs") and a in wanted_from.get((b, k), set()) and (b, k, a) not in fetched_from and not any_drop:
                             # not the known class: node b HAD scheduled / queued a fetch of this key from a (it
                             # did not hold the key then) and that fetch was never carried out
                             v.append(("scheduled-fetch-lost", "node %d queued or scheduled a fetch of %s from node %d, every message was delivered, yet the fetch was never made and the versions still differ: %s vs %s" % (b, k, a, ca, hb[k])))
